@@ -8,7 +8,7 @@ from jv.props import common as C
 
 ID = "C02"
 LEVEL = "exploration"
-BUDGET = {"quick": 2400, "thorough": 40000}
+BUDGET = {"quick": 4000, "thorough": 48000}
 RULE = (
     "case = generated scenario (HPC mode with 1-3 groups, or local mode) x schedule; at every job launch the set "
     "of result rows on disk (node result files + consolidated file, read raw at that instant) is recorded and "
